@@ -59,6 +59,12 @@ def gen(rng, tier, i):
     elif r < 0.3:
         cfg['transports'] = 'polling'
     cfg['cookie'] = rng.choice(COOKIES)
+    # connect handlers that greet their own session (re-entrant send)
+    for c in range(len(plan['sessions'])):
+        if rng.random() < 0.25:
+            plan['app_opts']['handler_faults'].append(
+                {'event': 'connect', 'c': c, 'action': 'send',
+                 'data': 'reentrant-welcome-%d' % c})
     return plan
 
 
